@@ -22,10 +22,13 @@ int main(int argc, char** argv) {
         int flavour = (int)(c % 3);     // 0 gaussian, 1 mixture, 2 arbitrary non-negative
         // filling: random shares incl. zeros, rounded so that the float sum is 1 at 1e-5
         std::vector<integral_t> fill(nb);
+        int weak = -1;
         {
             std::vector<double> w(nb); double s = 0; int nz = 0;
             for (uint32_t b = 0; b < nb; b++) { w[b] = (nb > 1 && r.chance(0.25)) ? 0 : r.uni(0.1, 1); s += w[b]; nz += w[b] > 0; }
             if (nz == 0) { w[0] = 1; s = 1; }
+            // a fifth of the trains: one very weak bunch (a legal filling pattern such as -I 1e-3 3e-11); its share and moments are as good as anybody's
+            if (nz > 1 && r.chance(0.2)) { for (uint32_t b = 0; b < nb; b++) if (w[b] > 0) { s -= w[b]; w[b] *= r.logu(1e-9, 1e-5); s += w[b]; weak = (int)b; break; } }
             for (uint32_t b = 0; b < nb; b++) fill[b] = (float)(w[b] / s);
         }
         // width of the generated start distribution (InitialDistZoom): from barely resolved to wider than the grid
@@ -236,6 +239,34 @@ int main(int argc, char** argv) {
                     if (!vh::bits_equal((float)rep_mean[ax][b], mean[b]) || !vh::bits_equal((float)rep_rms[ax][b], rms[b])) {
                         vh::J d; d.i("n", n).i("nb", nb).i("axis", ax).i("bunch", b).i("changed_bunch", j);
                         M.violation("C09:moment:depends_on_other_bunch", "a bunch's reported moments change when another bunch's data changes", d.str());
+                    }
+                }
+            }
+        }
+        if (weak >= 0) M.ev("cases_with_a_very_weak_bunch");
+        // moments do not depend on the amplitude: the same data scaled down by many orders of magnitude (a Gaussian of "any amplitude",
+        // not renormalised) must report the same means and widths
+        if (flavour != 2 && c % 5 >= 3) {
+            ps->updateXProjection(); ps->integrate(); ps->variance(0); ps->updateYProjection(); ps->variance(1);
+            std::vector<double> m0[2], w0[2];
+            for (int ax = 0; ax < 2; ax++) { auto mean = ps->getMoment(ax, 0); auto rms = (ax == 0) ? ps->getBunchLength() : ps->getEnergySpread();
+                for (uint32_t b = 0; b < nb; b++) { m0[ax].push_back(mean[b]); w0[ax].push_back(rms[b]); } }
+            float f = (float)r.logu(1e-12, 1e-3);
+            for (size_t i = 0; i < nn * nb; i++) data[i] *= f;
+            ps->updateXProjection(); ps->integrate(); ps->variance(0); ps->updateYProjection(); ps->variance(1);
+            for (int ax = 0; ax < 2; ax++) {
+                auto mean = ps->getMoment(ax, 0); auto rms = (ax == 0) ? ps->getBunchLength() : ps->getEnergySpread();
+                double ext = (ax == 0) ? (double)ps->getMax(0) - ps->getMin(0) : (double)ps->getMax(1) - ps->getMin(1);
+                for (uint32_t b = 0; b < nb; b++) {
+                    if (fill[b] == 0 || !(w0[ax][b] > 0)) continue;
+                    if ((double)fill[b] * f < 1e-30) continue;      // (would underflow single precision: outside "any amplitude" for float data)
+                    M.ev("scaled_down_moments_checked");
+                    double tol = 1e-4 * w0[ax][b] + 32 * n * EPS * ext;
+                    bool ok1 = M.within("moment.scale_invariance_mean_over_tol", std::fabs((double)mean[b] - m0[ax][b]) / tol, 1.0);
+                    bool ok2 = M.within("moment.scale_invariance_rms_over_tol", std::fabs((double)rms[b] - w0[ax][b]) / tol, 1.0);
+                    if (!ok1 || !ok2) {
+                        vh::J d; d.i("n", n).i("nb", nb).i("axis", ax).i("bunch", b).n("factor", f).n("share", fill[b]).n("mean_before", m0[ax][b]).n("mean_after", mean[b]).n("rms_before", w0[ax][b]).n("rms_after", rms[b]);
+                        M.violation("C09:moment:depends_on_amplitude", "reported mean/width changes when the whole distribution is scaled by a constant factor", d.str());
                     }
                 }
             }
